@@ -47,6 +47,9 @@ type PipelineRunner struct {
 
 	// Wait group for waiting for asynchronous operations like job.Cancel
 	wg sync.WaitGroup
+	// saveLock serializes SaveToStore (a channel of capacity 1 used as a lock): a later save always writes a later
+	// snapshot, and the final save of Shutdown waits for a save that is still in flight
+	saveLock chan struct{}
 	// Flag if the runner is shutting down
 	isShuttingDown bool
 
@@ -68,6 +71,7 @@ func NewPipelineRunner(ctx context.Context, defs *definition.PipelinesDef, creat
 		outputStore:        outputStore,
 		// Use channel buffered with one extra slot, so we can keep save requests while a save is running without blocking
 		persistRequests:      make(chan struct{}, 1),
+		saveLock:             make(chan struct{}, 1),
 		createTaskRunner:     createTaskRunner,
 		ShutdownPollInterval: 3 * time.Second,
 	}
@@ -731,8 +735,11 @@ func (r *PipelineRunner) initialLoadFromStore() error {
 }
 
 func (r *PipelineRunner) SaveToStore() {
-	r.wg.Add(1)
-	defer r.wg.Done()
+	// Saves must not register in r.wg: the persist loop saves at any time, also while Shutdown is in r.wg.Wait(), and a
+	// WaitGroup must not be added to concurrently with Wait. Overlapping saves are serialized instead, so that an older
+	// snapshot can never replace a newer one in the store.
+	r.saveLock <- struct{}{}
+	defer func() { <-r.saveLock }()
 
 	log.
 		WithField("component", "runner").
